@@ -109,6 +109,10 @@ def doApply (d : DState) (s0 : Sys) (ips : List Ip) (table : List (Ip × Bool)) 
 
 def step (d : DState) (toks : List String) : DState × String :=
   match toks with
+  | ["evloop", _, _] =>
+    -- the harness runs the REAL event loop on loopback (real ips file, real SIGHUPs) and checks the
+    -- settled uplink set with a monitor; no model state is involved: constant reply
+    (d, "evloop-ok")
   | "start" :: rest =>
     match kvNat rest "port", kvNat rest "now", (kv rest "ips").bind parseIps,
           (kv rest "conn").bind parseTable with
